@@ -6,8 +6,8 @@
    [rect_clip_lines_t] it holds for EVERY segment intersection function [gsi] (so independently of binary64
    behaviour); [rect_clip_lines_t = rect_clip_lines_g get_segment_intersection] is the model with the binary64
    GetSegmentIntersection.  Output points carry a ghost tag: SV i = copy of input vertex i, SI i = point returned
-   (result true) by GetIntersection on the input segment path[i-1]..path[i], SX i = the ip2 left behind when the
-   GetIntersection call whose result the code ignores returned false.
+   (result true) by GetIntersection on the input segment path[i-1]..path[i].  (SX i tags the stale ip2 that the code
+   before /repo commit 4911de9 emitted; the current code and its model never produce it -- the theorems show it.)
    Not proved (validated by the Coq-extracted specification oracle instead): the 1.5-unit on-polyline clause and
    the total-length clause, which depend on the accuracy of the binary64 intersection point. *)
 From Clip Require Import base.Geom base.FloatModel model.RectLeaf model.RectLines proofs.RectLines proofs.RectFloat.
@@ -22,23 +22,30 @@ Theorem C09_on_polyline_provenance :
   match s with
   | SV i => nth_error path i = Some v /\ in_rect r v
   | SI i => exists a b, seg_at path i a b /\ (gi_result gsi r b a v \/ gi_result gsi r a b v)
-  | SX i => exists a b, seg_at path i a b /\ exists loc l', get_intersection_g gsi r a b loc default_pt = (false, l', v)
+  | SX _ => False
   | SC _ => False
   end.
 Proof. exact lines_provenance_pointwise. Qed.
 Print Assumptions C09_on_polyline_provenance.
 
-(* containment: slack 0 for copied vertices, slack 1 for computed points provided the intersection function
-   returns points within one unit of the rectangle.  Partial: (a) the hypothesis on gsi is discharged for the
-   binary64 function only for |coordinates| <= 2^25 (C09_gsi_sound_small below), (b) nothing is claimed for a stale ip2
-   (tag SX; the correspondence run checks that the tag never occurs) *)
+(* containment: slack 0 for copied vertices, slack 1 for computed points, for every intersection function that
+   returns (with result true, for a side of the rectangle) only points within one unit of the rectangle.
+   Partial only in that this hypothesis on gsi is not yet discharged for the binary64 GetSegmentIntersection
+   (for |coordinates| <= 2^25 its cross products are exact, see below; the accuracy of the final division is validated) *)
 Theorem C09_inside_partial :
   forall gsi r path out piece v s,
   (forall x y a b ip q, is_side r a b -> gsi x y a b ip = (true, q) -> within r 1 q) ->
   rect_clip_lines_g gsi r path = Ok out -> In piece out -> In (v, s) piece ->
-  match s with SV _ => within r 0 v | SI _ => within r 1 v | SX _ => True | SC _ => False end.
+  match s with SV _ => within r 0 v | SI _ => within r 1 v | SX _ => False | SC _ => False end.
 Proof. exact lines_inside_pointwise. Qed.
 Print Assumptions C09_inside_partial.
+
+Theorem C09_inside_untagged_partial :
+  forall gsi r path out piece v,
+  (forall x y a b ip q, is_side r a b -> gsi x y a b ip = (true, q) -> within r 1 q) ->
+  rect_clip_lines_g gsi r path = Ok out -> In piece (untag out) -> In v piece -> within r 1 v.
+Proof. exact lines_inside_untagged. Qed.
+Print Assumptions C09_inside_untagged_partial.
 
 (* order and direction: along the concatenated output the position on the input polyline
    (vertex i -> 2i+1, point on the segment ending at vertex i -> 2i) never decreases *)
